@@ -286,7 +286,12 @@ Local Open Scope string_scope.
           asset apps, asset is initialised before esm);
    fixed: property=C20 17e806f class 12 (collector lookup table imported through the validating
           setter, InitGenesis returning on its error) - the rows ("collector", 3 | 1 | 5 | 7) are
-          gone: InitGenesis stores the exported records with SetGenCollectorLookupTable. *)
+          gone: InitGenesis stores the exported records with SetGenCollectorLookupTable;
+   fixed: property=C20 PENDING class 18 (rewards InitGenesis never restored the id counters of the
+          external reward programmes for lockers / vaults, so the next programme got id 1 again and
+          overwrote the live programme 1) - the rows ("rewards", 21 | 22) are gone: both counters are
+          recomputed as the maximum id of the imported programmes, and the programme records
+          (prefixes 19, 20) have no deleter, so that maximum IS the counter ([counter_ok]). *)
 Definition known_holes : list (string * Z * Z) :=
   [ (* 3: auctionsV2 bids, limit bids (and their id counter), protocol data and histories are in no
           GenesisState field *)
@@ -318,10 +323,6 @@ Definition known_holes : list (string * Z * Z) :=
            amounts are in no GenesisState field: a chain re-imported in the middle of a cool-off period
            sets the redemption up without them (reproduced: TestC20Rich world esm) *)
     ("esm", 16, 17); ("esm", 17, 17);
-    (* 18: rewards: the id counters of the external reward programmes for lockers / vaults are neither
-           exported nor restored although the programmes are: the next programme gets id 1 again and
-           overwrites the live programme 1 (reproduced: TestC20Rich world swap) *)
-    ("rewards", 21, 18); ("rewards", 22, 18);
     (* 19: liquidationsV2: the app reserve funds transaction records are not exported (reproduced:
            TestC20Rich worlds lend / fees) *)
     ("liquidationsV2", 7, 19);
@@ -353,7 +354,7 @@ Definition known_counter_shapes : list (string * Z * Z) :=
     ("auction", 19, 2); ("auction", 25, 2);
     ("liquidation", 1, 3);
     ("auctionsV2", 3, 5); ("liquidationsV2", 3, 5); ("locker", 23, 5);
-    ("rewards", 21, 5); ("rewards", 22, 5); ("rewards", 23, 5); ("rewards", 48, 5) ].
+    ("rewards", 23, 5); ("rewards", 48, 5) ].
 Local Close Scope string_scope.
 
 Definition hole_shape_ok (t : table) (m : string) (b : Z) : bool :=
